@@ -44,6 +44,20 @@ pub fn replay_sampler2(id: &str, fl: &str, a: &[u64], words: &[u64]) -> Option<(
                                        else { (rd::Pareto::<f32>::new(sc, sh).ok()?.sample(&mut r1), rd::Pareto::<f32>::new(1.0, sh).ok()?.sample(&mut r2)) };
             let want = sc * xb;
             Some(((xa == want || (xa.is_nan() && want.is_nan())) && r1.drawn == r2.drawn, format!("{}: sample(scale={:?}, shape={:?}) = {:?}; scale * sample(1, shape) = {:?}", id, sc, sh, xa, want))) }
+        "lognormal" | "gamma" | "beta" | "chi_squared" | "skew_normal" | "pert" | "poisson" => {
+            let f = |i: usize| f64::from_bits(a[i]);
+            let mut rng = ScriptRng::new(words, 0x5eed);
+            let (x, ok, shown): (f64, bool, String) = match id {
+                "lognormal" if a.len() >= 2 => { let x = rd::LogNormal::<f64>::new(f(0), f(1)).ok()?.sample(&mut rng); (x, !x.is_nan() && x >= 0.0, format!("LogNormal({:?}, {:?})", f(0), f(1))) }
+                "gamma" if a.len() >= 2 => { let x = rd::Gamma::<f64>::new(f(0), f(1)).ok()?.sample(&mut rng); (x, !x.is_nan() && x >= 0.0, format!("Gamma({:?}, {:?})", f(0), f(1))) }
+                "beta" if a.len() >= 2 => { let x = rd::Beta::<f64>::new(f(0), f(1)).ok()?.sample(&mut rng); (x, !x.is_nan() && x >= 0.0 && x <= 1.0, format!("Beta({:?}, {:?})", f(0), f(1))) }
+                "chi_squared" if !a.is_empty() => { let x = rd::ChiSquared::<f64>::new(f(0)).ok()?.sample(&mut rng); (x, !x.is_nan() && x >= 0.0, format!("ChiSquared({:?})", f(0))) }
+                "skew_normal" if a.len() >= 3 => { let x = rd::SkewNormal::<f64>::new(f(0), f(1), f(2)).ok()?.sample(&mut rng); (x, !x.is_nan(), format!("SkewNormal({:?}, {:?}, {:?})", f(0), f(1), f(2))) }
+                "pert" if a.len() >= 3 => { let x = rd::Pert::<f64>::new(f(0), f(1)).with_mode(f(2)).ok()?.sample(&mut rng); (x, !x.is_nan() && x >= f(0), format!("Pert({:?}, {:?}, mode {:?})", f(0), f(1), f(2))) }
+                "poisson" if !a.is_empty() => { let x = rd::Poisson::<f64>::new(f(0)).ok()?.sample(&mut rng); (x, !x.is_nan() && x >= 0.0, format!("Poisson({:?})", f(0))) }
+                _ => return None,
+            };
+            Some((ok, format!("{}.sample(words {:?}) = {:?}", shown, words, x))) }
         "zipf" if a.len() >= 2 => { let (n, s) = (f64::from_bits(a[0]), f64::from_bits(a[1])); let d = rd::Zipf::<f64>::new(n, s).ok()?;
             let mut rng = ScriptRng::new(words, 0x5eed); let x: f64 = d.sample(&mut rng);
             Some((x >= 1.0 && x <= n, format!("Zipf({:?}, {:?}).sample(words {:?}) = {:?} (support [1, n])", n, s, words, x))) }
